@@ -170,9 +170,9 @@ def write_struct(representation_code: RepresentationCode, value: Any) -> bytes:
         # references are keyed by the referenced item, whose name / origin reference can change; not cached
         return _write_struct(representation_code, value)
 
-    if isinstance(value, datetime) and value.tzinfo is None:
-        # a naive date-time is local time: its bytes depend on the time zone of the process, which can change; not cached
-        # (naive date-times that differ only in 'fold' also compare and hash equal)
+    if isinstance(value, datetime):
+        # not cached: a naive date-time is local time, so its bytes depend on the time zone of the process, which can change;
+        # and date-times (naive or in the same zone) that differ only in 'fold' compare and hash equal but are different instants
         return _write_struct(representation_code, value)
 
     return _write_struct_cached(representation_code, value)
